@@ -602,6 +602,10 @@ def solve_projection_onto_manifold_newton_with_line_search(
                 if new_error < error:
                     break
                 step_size *= 0.5
+            else:
+                # No decrease found: state.pos was last set with twice the current step
+                # size so restore it to keep the multiplier consistent with the position
+                step_size *= 2
             mu += step_size * delta_mu
         except (ValueError, LinAlgError) as e:
             # Make robust to errors in intermediate linear algebra ops
